@@ -350,3 +350,36 @@ def history(g, nops=None, max_inst=3, allow_internal=True):
         out.append("G %d" % i)
         out.append("F %d" % i)
     return out
+
+
+# ---- representative lines: one or more per encoding class (used for ordered pairs, C06/C13/C14/C15) -----------
+REPR_LINES = [l.encode() for l in [
+    "ret", "nop", "nop7", "clc", "cpuid", "lfence", "rdtscp",
+    "mov rax, rbx", "mov r9b, al", "mov ax, r10w", "mov eax, [rbx]", "mov [r13+0x10], r9",
+    "mov rax, 0x1122334455667788", "mov rax, 0x5", "mov r11, 0x0000000000000001", "mov ebx, 0x12345678",
+    "mov byte [rax], 0x7f", "mov qword [rsp+0x20], 0x100",
+    "add rax, rbx", "add r8, 0x7f", "add rax, 0x12345678", "sub ecx, 0x80", "xor r12d, r12d", "cmp byte [rsi+0x8], -0x1",
+    "and rdx, [rdi+r9*4+0x100]", "or [rax+rsp], rcx", "test rax, 0x40", "test cl, dl",
+    "imul rax, rbx", "imul r14, r15, 0x2", "imul rdx, [rsi+0x10], 0x5", "neg qword [rax]", "not r10", "inc dword [rbx+0x4]", "dec r15",
+    "lea rax, [2*rax]", "lea r15, [rax+rsp]", "lea rdx, [rdx+r13]", "lea rax, [4*rax+0x0]", "lea rcx, [0x1000]",
+    "push rax", "push r12", "push 0x7f", "push 0x1000", "pop r9", "push qword [rax+0x8]",
+    "shl rax, 1", "shr rbp, 43", "sar ecx, cl", "ror r12, 0x3f", "rcr rax, 3", "shld r12, rax, 43", "shrd rbx, r12, 44",
+    "movzx eax, bl", "xchg rax, rbx", "xchg r9, rax", "cmova rax, rbx", "cmovne r10, [rsp+0x8]", "seta al", "setne byte [rax]",
+    "jmp 0x10", "jmp -200", "jne 0x5", "jne 0x1000", "je short 0x10", "jmp long 0x10", "call 0x100", "call r10", "jmp [rax+0x8]", "jrcxz 0x5",
+    "xbegin 0x10", "xabort 0x5", "xend",
+    "adcx r12, r9", "adox rax, [rsp+0x10]", "mulx r8, r9, r10", "mulx r10, rax, [rsi+0x0]", "rorx rax, rbx, 5", "sarx r11, [rax+2*rsi-0xffff], r11",
+    "bextr eax, ebx, ecx", "bzhi rax, [rdi], rdx", "shlx r9, r10, r11",
+    "movq xmm0, r10", "movq rax, xmm2", "movd xmm1, [rax]", "movq [rsp+0x08], xmm15", "paddb xmm1, xmm2", "pxor xmm8, [r9+0x10]",
+    "paddd mm1, mm2", "pmulld xmm3, xmm11", "psrldq xmm1, 0x4", "movntdqa xmm1, [rax]", "punpcklqdq xmm1, xmm9", "cvtdq2pd xmm2, xmm3",
+    "vaddpd ymm3, ymm2, ymm1", "vmovupd ymm1, [rax]", "vmovupd [rdx], ymm3", "vmovdqu xmm13, xmm14", "vmovdqu [rsp+0x108], xmm11",
+    "vpaddb ymm1, ymm2, [rax+r9*4+0x100]", "vpxor xmm1, xmm2, xmm3", "vperm2i128 ymm0, ymm1, ymm2, 0x20", "vpermd ymm9, ymm10, ymm11",
+    "vpmuldq xmm1, xmm2, [rbx]", "vsubpd ymm12, ymm13, ymm14",
+    "prefetcht0 [rax]", "clflush [rbx+0x40]",
+]]
+
+LONG_LINES = [l.encode() for l in [
+    "mov qword [rax+rbx*8+0x12345678], 0x12345678", "add dword [eax+ecx*4+0x11223344], 0x55667788",
+    "imul r9, [r10d+r11d*8+0x12345678], 0x12345678", "mov word [r8d+r9d*8+0x12345678], 0x1234",
+    "vperm2i128 ymm8, ymm9, [r10d+r11d*8+0x12345678], 0x20", "mov rax, 0x1122334455667788",
+    "adcx r12, [r13d+r14d*4+0x11223344]", "nop11", "nop9",
+]]
